@@ -545,7 +545,7 @@ func main() {
 	if thorough {
 		g.opSequences(4, abcd, "alt4", false)
 	} else {
-		for i := 0; i < 3000; i++ {
+		for i := 0; i < 2000; i++ {
 			n := 4 + rng.Intn(4)
 			var sb strings.Builder
 			sb.WriteString("a")
@@ -576,11 +576,14 @@ func main() {
 		for _, o1 := range binOps {
 			for _, u2 := range units {
 				k++
-				g.parseCase(u1+" "+o1+" "+u2, thorough || k%7 == 0, "unit-op-unit")
+				if !thorough && k%3 != 0 {
+					continue
+				}
+				g.parseCase(u1+" "+o1+" "+u2, thorough || k%21 == 0, "unit-op-unit")
 			}
 		}
 	}
-	nU := 2500
+	nU := 1500
 	if thorough {
 		nU = 60000
 	}
@@ -604,7 +607,7 @@ func main() {
 			}
 		}
 	}
-	nS := 3000
+	nS := 2000
 	if thorough {
 		nS = 40000
 	}
@@ -651,7 +654,7 @@ func main() {
 			}
 		}
 	}
-	nT := 8000
+	nT := 4000
 	if thorough {
 		nT = 300000
 	}
@@ -700,7 +703,7 @@ func main() {
 			}
 		}
 	}
-	nP := 2000
+	nP := 1000
 	if thorough {
 		nP = 50000
 	}
